@@ -513,6 +513,11 @@ def child_run(plan: dict) -> dict:
                     inst.set = set(fields_set(inst.obj))
                     inst.dontcare = set()
             check(inst, what)
+            # every other live instance too: an operation on one object must not leak into
+            # another one (e.g. a copy sharing its source's set)
+            for other in slots[-6:]:
+                if other is not inst:
+                    check(other, what + ":other")
     except Mismatch as m:
         return {"violation": {"class": "model-mismatch:" + m.kind, "detail": m.detail}, "stats": _st(stats)}
     except Exception as e:  # harness or apischema raising where the model expects success
